@@ -1,0 +1,6 @@
+//go:build !verif
+
+package local
+
+// Verification hooks are compiled out unless the `verif` build tag is set.
+func verifPoint(string, string) {}
